@@ -1,4 +1,5 @@
 import Dtr.Proofs.Prec
+import Dtr.Proofs.ParserDenotes
 import Dtr.Model.Eval
 /-!
 # C08 — expressions: C-like precedence, 64-bit two's-complement arithmetic, lazy `ite`
@@ -190,5 +191,26 @@ example : BinOp.div.eval Int64.minValue (-1) = some Int64.minValue := by decide
 example : BinOp.shl.eval 1 64 = some 1 ∧ BinOp.shr.eval (-16) 66 = some (-4) := by decide
 example : parseRadix 16 "7fffffffffffffff".toList = some Int64.maxValue ∧ parseRadix 10 "9223372036854775808".toList = none := by
   decide
+
+/-- **The parsed expression is the tree its tokens denote**: whenever `parse_expr` succeeds, the tokens it
+consumed are a phrase `factor (op factor)*` of the grammar and the result is the tree `BTree.add` builds from that
+in-order sequence (`C08_chain_sound` / `_complete` / `_unique` say which tree that is: the only one with that
+sequence in which precedence decreases towards the root and equal levels lean to the left); parentheses, unary
+operators and function arguments recurse into phrases of the same grammar. -/
+theorem C08_parse_denotes (fuel : Nat) (st : PState) (e : Expr) (st' : PState) (h : parseExpr fuel st = .ok e st') :
+    ∃ u, st.toks = u ++ st'.toks ∧ DExpr u e :=
+  (exprD fuel).expr st e st' h
+
+/-- non-vacuity, and the grammar at work: `1 + 2 * 3` denotes `1 + (2 * 3)` -/
+example : DExpr [.num (some 1), .sym .Plus, .num (some 2), .sym .Times, .num (some 3)]
+    (.bin .add (.num 1) (.bin .mul (.num 2) (.num 3))) := by
+  have h := DExpr.chain [.num (some 1)] (.num 1) [.sym .Plus, .num (some 2), .sym .Times, .num (some 3)]
+    [(.add, .num 2), (.mul, .num 3)] (DFactor.num 1)
+    (DChain.cons (.sym .Plus) .add [.num (some 2)] (.num 2) [.sym .Times, .num (some 3)] [(.mul, .num 3)] (by decide)
+      (DFactor.num 2)
+      (by
+        have := DChain.cons (.sym .Times) .mul [.num (some 3)] (.num 3) [] [] (by decide) (DFactor.num 3) DChain.nil
+        simpa using this))
+  simpa [BTree.add, BTree.toExpr, BinOp.prec] using h
 
 end Dtr
